@@ -3,6 +3,7 @@ pub mod core;
 pub mod dump;
 pub mod exec;
 pub mod model;
+pub mod mvcc;
 pub mod rng;
 pub mod runner;
 pub mod simfs;
